@@ -77,6 +77,30 @@ theorem comment_engine_at_the_gap (f f' post : Str) (good : Str → Prop) (hf : 
     GapRel f f' post good (skip ([] ++ (f ++ post))) (skip ([] ++ (f' ++ post))) :=
   comment_skip_at_gap f f' post good hf hf' hp
 
+open MoSql.Peg in
+/-- in front of the gap, the comment-aware engine behaves alike on both texts from every end of the shape
+"filler, then something solid" (`w ++ u'`) and from every end followed by filler only: together with
+`comment_engine_at_the_gap` this discharges the skipping hypothesis of `GapHyp` for every end that does not stand
+inside an open comment -/
+theorem comment_engine_before_the_gap (f f' post w u' : Str) (good : Str → Prop) (hw : Filler w)
+    (hs : solidStart u' = true) (hg : good u') :
+    GapRel f f' post good (skip ((w ++ u') ++ (f ++ post))) (skip ((w ++ u') ++ (f' ++ post))) :=
+  comment_skip_before_gap f f' post w u' good hw hs hg
+
+open MoSql.Peg in
+theorem comment_engine_filler_up_to_the_gap (f f' post u : Str) (good : Str → Prop) (hu : Filler u) (hf : Filler f)
+    (hf' : Filler f') (hp : stopsHere post = true) :
+    GapRel f f' post good (skip (u ++ (f ++ post))) (skip (u ++ (f' ++ post))) :=
+  comment_skip_filler_before_gap f f' post u good hu hf hf' hp
+
+open MoSql.Peg in
+/-- the terminal hypothesis of `GapHyp` for literals: a `Literal` / `CaselessLiteral` whose text is not longer than what
+is left in front of the gap matches, or fails, alike on both texts (it cannot see the filler) -/
+theorem literal_does_not_see_the_gap (f f' post u s : Str) (cl : Bool) (goodE : Str → Prop) (hlen : s.length ≤ u.length)
+    (hgood : ∀ r0, stripPrefix cl s u = some r0 → goodE r0) :
+    TermRel (GapRel f f' post goodE) (matchTerm (.lit s cl) (u ++ (f ++ post))) (matchTerm (.lit s cl) (u ++ (f' ++ post))) :=
+  lit_term_gap f f' post u s cl goodE hlen hgood
+
 /-- the engines never move backwards (a hypothesis of `GapHyp`, here for the comment-aware engine) -/
 theorem comment_engine_moves_forward (x : List Char) : (skip x).length ≤ x.length := skip_le x
 
